@@ -43,6 +43,22 @@ def removeOp (s : St) (p : Nat) (park : Bool) : Option St := do
   let s1 ← step s (.removeBegin p)
   if s1.busy != .idle && !park then step s1 .removeEnd else return s1
 
+/-- `run J stop flap`: the stopIfConnected goroutine's Connectedness query (under ph.mu) answers "connected" and the
+connection drops right after it: the goroutine acts on the answer; the Disconnected notification is delivered and its
+startIfDisconnected goroutine runs as soon as the handler's lock is free. Only when the query is actually made (timer
+non-nil), the peer is connected and no service call is in progress; otherwise a plain `run J stop`. -/
+def flapOp (s : St) (j : Nat) : Option St := do
+  let h := s.hs j
+  let p := h.peer
+  let s1 ← step s (.runStop j)
+  if j < s.n && h.timer != .none && s.conn p && s.busy == .idle then
+    let s2 := stepD s1 (.setConn p false)
+    let s3 := stepD s2 (.notify p false)
+    match s3.peers p with
+    | some k => return stepD s3 (.runStart k 0 0)
+    | none => return s3
+  else return s1
+
 def doOp (s : St) (ts : List String) : Option (Option St) :=
   -- outer none = bad op; inner none = disabled
   match ts with
@@ -55,6 +71,7 @@ def doOp (s : St) (ts : List String) : Option (Option St) :=
   | ["notify", p, k] => p.toNat?.map fun p => step s (.notify p (k == "conn"))
   | ["run", j, "start"] => j.toNat?.map fun j => step s (.runStart j 0 0)
   | ["run", j, "stop"] => j.toNat?.map fun j => step s (.runStop j)
+  | ["run", j, "stop", "flap"] => j.toNat?.map fun j => flapOp s j
   | ["fire", j] => j.toNat?.map fun j => step s (.fire j)
   | ["dial", j] => j.toNat?.map fun j => step s (.dial j)
   | ["ret", j, _] => j.toNat?.map fun j => step s (.dialEnd j 0 0)
